@@ -154,3 +154,24 @@ func (p *Prog) argStr(ci ssa.CallInstruction, i int) string {
 	}
 	return p.R(ci.Parent()).E(args[i])
 }
+
+// isGenerated: protobuf/gateway generated sources (decoders write every field; not hand-written logic).
+func (p *Prog) isGenerated(fn *ssa.Function) bool {
+	f := p.Fset.Position(rootOf(fn).Pos()).Filename
+	return strings.HasSuffix(f, ".pb.go") || strings.HasSuffix(f, ".pb.gw.go") || strings.HasSuffix(f, ".pulsar.go")
+}
+
+// EQ / NE build canonical (operand-sorted) equality facts.
+func EQ(a, b string) string {
+	if b < a {
+		a, b = b, a
+	}
+	return "(" + a + " == " + b + ")"
+}
+
+func NE(a, b string) string {
+	if b < a {
+		a, b = b, a
+	}
+	return "(" + a + " != " + b + ")"
+}
